@@ -206,6 +206,21 @@ func Run(r *common.Run) error {
 		}
 		return nil
 	}
+	// free-running concurrent use of both directions (the race-detector run is this plus the
+	// forced wake-up and close-fail scenarios)
+	for i, carrier := range []string{"iq", "message"} {
+		r.Mark("case duplex-concurrent %d", i)
+		runDuplexConcurrent(r, carrier, r.Pick(20, 60))
+	}
+	if r.Race() {
+		for i := 0; i < 6; i++ {
+			r.Mark("case duplex-concurrent-race %d", i)
+			runDuplexConcurrent(r, []string{"iq", "message"}[i%2], 40+10*i)
+		}
+		RunWaits(r)
+		r.Notes = append(r.Notes, "race-detector run: concurrent duplex scenarios, forced wake-up and close-fail scenarios only")
+		return nil
+	}
 	n := 0
 	for _, c := range recvCorpus() {
 		for _, carrier := range []string{"iq", "message"} {
